@@ -448,7 +448,7 @@ pub fn run(ctx: &Ctx) {
         ctx.run_list("hfs_sessions", &cases, false, oracle);
     }
     #[cfg(not(feature = "hfs"))]
-    ctx.note("hfs/Kyber names are only exercised by the thorough tier (harness built with --features hfs)");
+    ctx.note("hfs/Kyber names are exercised by the hfs build of the harness: ./check starts it as a second process for the sub-check hfs_sessions (quick) or runs it alone (thorough)");
 }
 
 pub fn replay(ctx: &Ctx, sub: &str, case: &serde_json::Value, origin: &str) -> bool {
